@@ -521,6 +521,7 @@ package res
 //@
 //@ # decodedMsg: the message whose payload was handed to the JSON decoder by processRequest
 //@ ghostvar decodedMsg ref
+//@ ghostvar earlyrep bool
 //@ func (s *Service) processRequest(m *nats.Msg, rtype string, rname string, method string, mh *Match)
 //@   requires s != nil && m != nil && !isNil(s.nc)
 //@   requires rt: rtype == "access" || rtype == "get" || rtype == "call" || rtype == "auth"
@@ -530,6 +531,11 @@ package res
 //@   # every non-empty payload goes through the decoder (whole, into rc) before a handler can run: a payload that is not
 //@   # JSON is answered with the decoder's error, and the fields the handler sees are the decoded ones
 //@   ghost entry :: set decodedMsg = 0
+//@   # C04: the early replies (no handler, payload not JSON) end the processing: no handler runs after one of them
+//@   ghost entry :: set earlyrep = false
+//@   ghost call Request.reply#1 after :: set earlyrep = true
+//@   ghost call Request.error#1 after :: set earlyrep = true
+//@   ghost call Request.executeHandler#1 before :: assert no.early.reply: !earlyrep
 //@   ghost call Unmarshal#1 before :: assert whole: same(arg_data, m.Data)
 //@   ghost call Unmarshal#1 after :: set decodedMsg = ref(m)
 //@   ghost call Request.executeHandler#1 before :: assert f.decoded: imp(len(m.Data) > 0, decodedMsg == ref(m))
@@ -891,6 +897,8 @@ package res
 //@   requires s != nil && muxOK(s.Mux)
 //@   modifies alloc, res.Match.Handler, res.Match.Listeners, res.Match.Params, res.Match.Group, res.resource.rname, res.resource.pathParams, res.resource.query, res.resource.group, res.resource.h, res.resource.listeners, res.resource.s
 //@   ensures imp(isNil(err), !isNil(r) && typeIs(r, "*res.resource") && ptrOf(r, "*res.resource") != nil && ptrOf(r, "*res.resource").s == s)
+//@   # C08: the resource carries the handler, listeners, group and parameters of the match (a With callback runs listeners like a request does)
+//@   ghost exit :: assert from.match: imp(isNil(err), same(ptrOf(r, "*res.resource").listeners, mh.Listeners) && same(ptrOf(r, "*res.resource").h, mh.Handler) && same(ptrOf(r, "*res.resource").group, mh.Group) && same(ptrOf(r, "*res.resource").pathParams, mh.Params) && same(ptrOf(r, "*res.resource").rname, rname) && same(ptrOf(r, "*res.resource").query, q))
 //@
 //@ # ---- C01: the exported ways to run a callback hand it to runWith with the worker id of the resource's group
 //@ # dynamic dispatch of Resource.Group: for the dynamic types *resource and *Request the method is (*resource).Group (contract proved above)
@@ -1326,6 +1334,8 @@ package res
 //@   opaque startOf tokEnd ndots
 //@   callback OnRegister onRegisterCB
 //@   ghost call setAndValidateParams#1 before :: use open(n)
+//@   # C08: every listener of the handler is registered under the pattern it was given for (its key in Handler.Listeners)
+//@   ghost call Mux.AddListener#1 before :: assert own.key: mapHasId(hs.Listeners, keyid(arg_pattern)) && ref(arg_handler) == ref(mapValId(hs.Listeners, keyid(arg_pattern)))
 //@   ensures ok: muxOK(m)
 //@   loop 1 invariant -1 <= rangeindex && rangeindex < len(hs.group) + 0 && mountIdx > 0 && WF() && n != nil && isnode[ref(n)] && n.hs == nil
 //@   loop 1 invariant forall(k, 0, len(hs.group), imp(len(hs.group[k].str) == 0, ite(k <= rangeindex, 0 <= hs.group[k].idx && hs.group[k].idx < nr[ref(n)], mountIdx <= hs.group[k].idx && hs.group[k].idx - mountIdx < nr[ref(n)])))
@@ -1538,4 +1548,6 @@ package res
 //@   ghost call WaitGroup.Add#1 before :: set closing = false
 //@   ghost call WaitGroup.Add#1 before :: set qhead = 0
 //@   ghost call WaitGroup.Add#1 before :: assert init: moninv(s)
+//@   # C15: the timer queue of the query events of this run is one that was created with the currently configured duration
+//@   ghost call WaitGroup.Add#1 before :: assert query.timer: s.queryTQ != nil && tqdur[ref(s.queryTQ)] == s.queryDuration
 //@   loop 1 invariant s != nil
